@@ -161,6 +161,36 @@ def bare_ok(make_el, d):
     return result_eq(got, expected_default(make_el, d))
 
 
+def default_fresh_ok(d, kind):
+    """mutating the default value taken from one model must not show up in the next model built from data
+    that omits the property (nor in the schema's own default)"""
+    from vf.common import Object, Element, Property, Array, Integer, jeq
+
+    if kind == 0:
+        make = lambda: Object.inline("M", properties={"tags": Property(Array(Integer(), default=[d])), "n": Property(Integer(default=d))})
+        get, mutate, want = (lambda r: r.tags), (lambda x: x.append(99)), [d]
+    elif kind == 1:
+        make = lambda: Element(properties={"meta": Property(Element(default={"k": d}))})
+        get, mutate, want = (lambda r: r["meta"]), (lambda x: x.__setitem__("extra", 1)), {"k": d}
+    elif kind == 2:
+        make = lambda: Object.inline("M", properties={"rows": Property(Array(Array(Integer()), default=[[d]]), source="r o w s")})
+        get, mutate, want = (lambda r: r.rows), (lambda x: x[0].append(7)), [[d]]
+    else:
+        make = lambda: Array(Integer(), default=[d, d])
+        M = make()
+        from vf.common import NotPassed
+
+        first = M(NotPassed())
+        first.append(5)
+        return jeq(M(NotPassed()), [d, d]) and jeq(M.default, [d, d])
+    M = make()
+    first = M({})
+    mutate(get(first))
+    second = M({})
+    third = M({})
+    return jeq(get(second), want) and jeq(get(third), want) and get(second) is not get(third)
+
+
 def harnesses(ctx) -> List[H]:
     hs: List[H] = []
     DV = "Dict[str, int]"
@@ -191,6 +221,8 @@ def make(wd):
 return not omitted_reached(make, v)
 """
         hs.append(mk(f"c05_{name}__omitted", f"{hargs}, v: {vt}", pre, body, kind="witness", timeout=30, group="object"))
+    hs.append(mk("c05_default_not_shared", "d: int, kind: int", ["0 <= kind < 4"], "return default_fresh_ok(d, concretize_int(kind, 0, 3))", timeout=120, group="object",
+                 covers="container defaults (list, dict, nested list under a renamed property, bare array element): a second/third build is unaffected by mutating the first result"))
     bare = [
         ("integer", "m: int, d: int", [], "Integer(minimum=m, default=d)", "d"),
         ("untyped", "m: int, d: int", [], "Element(maximum=m, default=d)", "d"),
